@@ -13,44 +13,49 @@ open Dec C11
 
 theorem datatype_cons (b : UInt8) (tl : Bytes) : Dec.datatype (b :: tl) = Dec.typeOf b (b :: tl) := rfl
 
-/-- run `Token::decode` when the type and the accessor results are known. -/
+/-- the arms of the `match d.datatype()?` in `Token::decode`. -/
+def Dec.tokenArm (ty : CType) : Dec Token :=
+  match ty with
+  | .bool => do let b ← Dec.bool; pure (Token.bool b)
+  | .u8 => do let v ← intAcc .u8; pure (.u8 v.toNat)
+  | .u16 => do let v ← intAcc .u16; pure (.u16 v.toNat)
+  | .u32 => do let v ← intAcc .u32; pure (.u32 v.toNat)
+  | .u64 => do let v ← intAcc .u64; pure (.u64 v.toNat)
+  | .i8 => do let v ← intAcc .i8; pure (.i8 v)
+  | .i16 => do let v ← intAcc .i16; pure (.i16 v)
+  | .i32 => do let v ← intAcc .i32; pure (.i32 v)
+  | .i64 => do let v ← intAcc .i64; pure (.i64 v)
+  | .int => do let v ← intAcc .int; pure (.int v)
+  | .f16 => do let b ← Dec.f16; pure (.f16 b)
+  | .f32 => do let b ← Dec.f32; pure (.f32 b)
+  | .f64 => do let b ← Dec.f64; pure (.f64 b)
+  | .bytes => do let b ← Dec.bytes; pure (.bytes b)
+  | .string => do let b ← Dec.str; pure (.string b)
+  | .tag => do let n ← Dec.tag; pure (.tag n)
+  | .simple => do let n ← Dec.simple; pure (.simple n)
+  | .array => do
+      match (← Dec.array) with
+      | some n => pure (.array n)
+      | none => fail .type
+  | .map => do
+      match (← Dec.map) with
+      | some n => pure (.map n)
+      | none => fail .type
+  | .bytesIndef => do skipByte; pure .beginBytes
+  | .stringIndef => do skipByte; pure .beginString
+  | .arrayIndef => do skipByte; pure .beginArray
+  | .mapIndef => do skipByte; pure .beginMap
+  | .null => do skipByte; pure .null
+  | .undefined => do skipByte; pure .undefined
+  | .break => do skipByte; pure .brk
+  | .unknown _ => fail .type
+
+theorem Dec.token_eq : Dec.token = Dec.datatype >>= Dec.tokenArm := rfl
+
+/-- run `Token::decode` when the type is known. -/
 theorem token_of_datatype {bs : Bytes} {ty : CType} (h : Dec.datatype bs = .ok ty bs) :
-    Dec.token bs = (match ty with
-      | .bool => do let b ← Dec.bool; pure (Token.bool b)
-      | .u8 => do let v ← intAcc .u8; pure (.u8 v.toNat)
-      | .u16 => do let v ← intAcc .u16; pure (.u16 v.toNat)
-      | .u32 => do let v ← intAcc .u32; pure (.u32 v.toNat)
-      | .u64 => do let v ← intAcc .u64; pure (.u64 v.toNat)
-      | .i8 => do let v ← intAcc .i8; pure (.i8 v)
-      | .i16 => do let v ← intAcc .i16; pure (.i16 v)
-      | .i32 => do let v ← intAcc .i32; pure (.i32 v)
-      | .i64 => do let v ← intAcc .i64; pure (.i64 v)
-      | .int => do let v ← intAcc .int; pure (.int v)
-      | .f16 => do let b ← Dec.f16; pure (.f16 b)
-      | .f32 => do let b ← Dec.f32; pure (.f32 b)
-      | .f64 => do let b ← Dec.f64; pure (.f64 b)
-      | .bytes => do let b ← Dec.bytes; pure (.bytes b)
-      | .string => do let b ← Dec.str; pure (.string b)
-      | .tag => do let n ← Dec.tag; pure (.tag n)
-      | .simple => do let n ← Dec.simple; pure (.simple n)
-      | .array => do
-          match (← Dec.array) with
-          | some n => pure (.array n)
-          | none => fail .type
-      | .map => do
-          match (← Dec.map) with
-          | some n => pure (.map n)
-          | none => fail .type
-      | .bytesIndef => do skipByte; pure .beginBytes
-      | .stringIndef => do skipByte; pure .beginString
-      | .arrayIndef => do skipByte; pure .beginArray
-      | .mapIndef => do skipByte; pure .beginMap
-      | .null => do skipByte; pure .null
-      | .undefined => do skipByte; pure .undefined
-      | .break => do skipByte; pure .brk
-      | .unknown _ => fail .type : Dec Token) bs := by
-  unfold Dec.token
-  rw [Dec.bind_run, h]
+    Dec.token bs = Dec.tokenArm ty bs := by
+  rw [Dec.token_eq, Dec.bind_run, h]
 
 /-! ### integers -/
 
@@ -65,6 +70,12 @@ theorem datatype_uint (w : Width) (n : Nat) (rest : Bytes) (h : w.fits n = true)
     simp [headW, datatype_cons, Dec.typeOf, Width.ai, uintTy, h1]
   all_goals simp [headW, datatype_cons, Dec.typeOf, Width.ai, uintTy]
 
+theorem Dec.bind_pure_ok {m : Dec α} {g : α → β} {bs : Bytes} {a : α} {r : Bytes}
+    (h : m bs = .ok a r) : (m >>= fun v => (pure (g v) : Dec β)) bs = .ok (g a) r := by
+  rw [Dec.bind_run, h]; rfl
+
+/- NB: `rw [Dec.bind_run]` on goals mentioning `IntTy.u32`/`IntTy.u64` sends the kernel into
+   unary arithmetic on the 2^32 / 2^64 literals; `bind_pure_ok` avoids it. -/
 theorem token_uint (w : Width) (n : Nat) (rest : Bytes) (h : w.fits n = true) :
     Dec.token (headW 0 w n ++ rest) = .ok (uintTok w n) rest := by
   rw [token_of_datatype (datatype_uint w n rest h)]
@@ -73,12 +84,17 @@ theorem token_uint (w : Width) (n : Nat) (rest : Bytes) (h : w.fits n = true) :
     intro t _ hm
     have := C05.int_accessor_ok t w false n rest h (by simp) hm
     simpa [C05.intHead, C05.intVal] using this
-  cases w <;> simp only [uintTy, uintTok, Width.fits, decide_eq_true_eq] at h ⊢
-  · rw [Dec.bind_run, key .u8 rfl (by simp [IntTy.u8]; omega)]; simp
-  · rw [Dec.bind_run, key .u8 rfl (by simp [IntTy.u8]; omega)]; simp
-  · rw [Dec.bind_run, key .u16 rfl (by simp [IntTy.u16]; omega)]; simp
-  · rw [Dec.bind_run, key .u32 rfl (by simp [IntTy.u32]; omega)]; simp
-  · rw [Dec.bind_run, key .u64 rfl (by simp [IntTy.u64]; omega)]; simp
+  cases w <;> simp only [uintTy, uintTok, Dec.tokenArm, Width.fits, decide_eq_true_eq] at h ⊢
+  · have hm : n ≤ IntTy.u8.max := by show n ≤ 255; omega
+    exact Dec.bind_pure_ok (g := fun v : Int => Token.u8 v.toNat) (key .u8 rfl hm)
+  · have hm : n ≤ IntTy.u8.max := by show n ≤ 255; omega
+    exact Dec.bind_pure_ok (g := fun v : Int => Token.u8 v.toNat) (key .u8 rfl hm)
+  · have hm : n ≤ IntTy.u16.max := by show n ≤ 65535; omega
+    exact Dec.bind_pure_ok (g := fun v : Int => Token.u16 v.toNat) (key .u16 rfl hm)
+  · have hm : n ≤ IntTy.u32.max := by show n ≤ 4294967295; omega
+    exact Dec.bind_pure_ok (g := fun v : Int => Token.u32 v.toNat) (key .u32 rfl hm)
+  · have hm : n ≤ IntTy.u64.max := by show n ≤ 18446744073709551615; omega
+    exact Dec.bind_pure_ok (g := fun v : Int => Token.u64 v.toNat) (key .u64 rfl hm)
 
 def nintTy : Width → Nat → CType
   | .w0, _ => .i8
@@ -115,122 +131,130 @@ theorem token_nint (w : Width) (n : Nat) (rest : Bytes) (h : w.fits n = true) :
     have := C05.int_accessor_ok t w true n rest h (fun _ => ht) hm
     simpa [C05.intHead, C05.intVal] using this
   cases w <;> simp only [nintTy, nintTok, Width.fits, decide_eq_true_eq] at h ⊢
-  · rw [Dec.bind_run, key .i8 rfl (by simp [IntTy.i8]; omega)]; simp
+  · have hm : n ≤ IntTy.i8.max := by show n ≤ 127; omega
+    exact Dec.bind_pure_ok (g := Token.i8) (key .i8 rfl hm)
   · split
-    · rw [Dec.bind_run, key .i8 rfl (by simp [IntTy.i8]; omega)]; simp
-    · rw [Dec.bind_run, key .i16 rfl (by simp [IntTy.i16]; omega)]; simp
+    · have hm : n ≤ IntTy.i8.max := by show n ≤ 127; omega
+      exact Dec.bind_pure_ok (g := Token.i8) (key .i8 rfl hm)
+    · have hm : n ≤ IntTy.i16.max := by show n ≤ 32767; omega
+      exact Dec.bind_pure_ok (g := Token.i16) (key .i16 rfl hm)
   · split
-    · rw [Dec.bind_run, key .i16 rfl (by simp [IntTy.i16]; omega)]; simp
-    · rw [Dec.bind_run, key .i32 rfl (by simp [IntTy.i32]; omega)]; simp
+    · have hm : n ≤ IntTy.i16.max := by show n ≤ 32767; omega
+      exact Dec.bind_pure_ok (g := Token.i16) (key .i16 rfl hm)
+    · have hm : n ≤ IntTy.i32.max := by show n ≤ 2147483647; omega
+      exact Dec.bind_pure_ok (g := Token.i32) (key .i32 rfl hm)
   · split
-    · rw [Dec.bind_run, key .i32 rfl (by simp [IntTy.i32]; omega)]; simp
-    · rw [Dec.bind_run, key .i64 rfl (by simp [IntTy.i64]; omega)]; simp
+    · have hm : n ≤ IntTy.i32.max := by show n ≤ 2147483647; omega
+      exact Dec.bind_pure_ok (g := Token.i32) (key .i32 rfl hm)
+    · have hm : n ≤ IntTy.i64.max := by show n ≤ 9223372036854775807; omega
+      exact Dec.bind_pure_ok (g := Token.i64) (key .i64 rfl hm)
   · split
-    · rw [Dec.bind_run, key .i64 rfl (by simp [IntTy.i64]; omega)]; simp
-    · rw [Dec.bind_run, key .int rfl (by simp [IntTy.int]; omega)]; simp
+    · have hm : n ≤ IntTy.i64.max := by show n ≤ 9223372036854775807; omega
+      exact Dec.bind_pure_ok (g := Token.i64) (key .i64 rfl hm)
+    · have hm : n ≤ IntTy.int.max := by show n ≤ 18446744073709551615; omega
+      exact Dec.bind_pure_ok (g := Token.int) (key .int rfl hm)
 
 /-! ### heads of major types 2..6 -/
 
-/-- `type_of` on the initial byte of a definite head of major type 2..6. -/
-theorem datatype_major (M : Nat) (ty : CType) (w : Width) (n : Nat) (rest : Bytes)
+/-- `type_of` on an initial byte in the range of the definite heads of major types 2..6. -/
+theorem typeOf_major (b : UInt8) (bs : Bytes) (M : Nat) (ty : CType)
+    (hM : (M = 64 ∧ ty = .bytes) ∨ (M = 96 ∧ ty = .string) ∨ (M = 128 ∧ ty = .array) ∨
+          (M = 160 ∧ ty = .map) ∨ (M = 192 ∧ ty = .tag))
+    (h1 : M ≤ b.toNat) (h2 : b.toNat ≤ M + 27) : Dec.typeOf b bs = .ok ty bs := by
+  unfold Dec.typeOf
+  generalize b.toNat = k at *
+  rcases hM with ⟨rfl, rfl⟩ | ⟨rfl, rfl⟩ | ⟨rfl, rfl⟩ | ⟨rfl, rfl⟩ | ⟨rfl, rfl⟩
+  all_goals
+    simp (disch := omega) only [beq_iff_eq, Bool.and_eq_true, decide_eq_true_eq, Bool.or_eq_true, if_neg, if_pos]
+    rfl
+
+theorem datatype_major (M : Nat) (ty : CType) (w : Width) (n : Nat)
     (h : w.fits n = true)
     (hM : (M = 64 ∧ ty = .bytes) ∨ (M = 96 ∧ ty = .string) ∨ (M = 128 ∧ ty = .array) ∨
           (M = 160 ∧ ty = .map) ∨ (M = 192 ∧ ty = .tag)) (tl : Bytes) :
     Dec.datatype (u8 (M + w.ai n) :: tl) = .ok ty (u8 (M + w.ai n) :: tl) := by
   have ha := Width.ai_le w n h
+  have hb : (u8 (M + w.ai n)).toNat = M + w.ai n := by rw [u8_toNat_mod]; omega
   rw [datatype_cons]
-  unfold Dec.typeOf
-  rcases hM with ⟨rfl, rfl⟩ | ⟨rfl, rfl⟩ | ⟨rfl, rfl⟩ | ⟨rfl, rfl⟩ | ⟨rfl, rfl⟩
-  all_goals
-    simp only [u8_toNat_mod]
-    generalize w.ai n = a at ha
-    have e : ∀ k, k + a < 256 → (k + a) % 256 = k + a := fun k hk => Nat.mod_eq_of_lt hk
-    simp only [e _ (show _ + a < 256 by omega)]
-    simp
-    omega
+  exact typeOf_major _ _ M ty hM (by omega) (by omega)
 
 theorem token_bytes (w : Width) (b rest : Bytes) (h : w.fits b.length = true) :
     Dec.token (encW (.bytes w b) ++ rest) = .ok (.bytes b) rest := by
-  have hd := datatype_major 64 .bytes w b.length rest h (by simp) (be w.bytes b.length ++ (b ++ rest))
+  have hd := datatype_major 64 .bytes w b.length h (by simp) (be w.bytes b.length ++ (b ++ rest))
   have hb := C04.bytes_sound w b rest h
   simp only [encW, headW, List.cons_append, List.append_assoc, Nat.reduceMul] at hb ⊢
   rw [token_of_datatype hd]
-  simp only []
-  rw [Dec.bind_run, hb]; rfl
+  exact Dec.bind_ok _ _ _ _ _ hb
 
 theorem token_text (w : Width) (b rest : Bytes) (h : w.fits b.length = true) (hu : validUtf8 b = true) :
     Dec.token (encW (.text w b) ++ rest) = .ok (.string b) rest := by
-  have hd := datatype_major 96 .string w b.length rest h (by simp) (be w.bytes b.length ++ (b ++ rest))
+  have hd := datatype_major 96 .string w b.length h (by simp) (be w.bytes b.length ++ (b ++ rest))
   have hb := C04.str_sound w b rest h hu
   simp only [encW, headW, List.cons_append, List.append_assoc, Nat.reduceMul] at hb ⊢
   rw [token_of_datatype hd]
-  simp only []
-  rw [Dec.bind_run, hb]; rfl
+  exact Dec.bind_ok _ _ _ _ _ hb
 
 theorem token_array (w : Width) (n : Nat) (rest : Bytes) (h : w.fits n = true) :
     Dec.token (headW 4 w n ++ rest) = .ok (.array n) rest := by
-  have hd := datatype_major 128 .array w n rest h (by simp) (be w.bytes n ++ rest)
+  have hd := datatype_major 128 .array w n h (by simp) (be w.bytes n ++ rest)
   have hb := C04.array_sound w n rest h
   simp only [headW, List.cons_append, Nat.reduceMul] at hb ⊢
   rw [token_of_datatype hd]
-  simp only []
-  rw [Dec.bind_run, hb]; rfl
+  exact Dec.bind_ok _ _ _ _ _ hb
 
 theorem token_map (w : Width) (n : Nat) (rest : Bytes) (h : w.fits n = true) :
     Dec.token (headW 5 w n ++ rest) = .ok (.map n) rest := by
-  have hd := datatype_major 160 .map w n rest h (by simp) (be w.bytes n ++ rest)
+  have hd := datatype_major 160 .map w n h (by simp) (be w.bytes n ++ rest)
   have hb := C04.map_sound w n rest h
   simp only [headW, List.cons_append, Nat.reduceMul] at hb ⊢
   rw [token_of_datatype hd]
-  simp only []
-  rw [Dec.bind_run, hb]; rfl
+  exact Dec.bind_ok _ _ _ _ _ hb
 
 theorem token_tag (w : Width) (n : Nat) (rest : Bytes) (h : w.fits n = true) :
     Dec.token (headW 6 w n ++ rest) = .ok (.tag n) rest := by
-  have hd := datatype_major 192 .tag w n rest h (by simp) (be w.bytes n ++ rest)
+  have hd := datatype_major 192 .tag w n h (by simp) (be w.bytes n ++ rest)
   have hb := C04.tag_sound w n rest h
   simp only [headW, List.cons_append, Nat.reduceMul] at hb ⊢
   rw [token_of_datatype hd]
-  simp only []
-  rw [Dec.bind_run, hb]; rfl
+  exact Dec.bind_ok _ _ _ _ _ hb
 
 /-! ### single-byte tokens -/
 
 theorem token_beginBytes (rest : Bytes) : Dec.token (0x5f :: rest) = .ok .beginBytes rest := by
   rw [token_of_datatype (ty := .bytesIndef) (by simp [datatype_cons, Dec.typeOf])]
-  simp [Dec.skipByte, Dec.bind_run]
+  simp [Dec.tokenArm, Dec.skipByte, Dec.bind_run]
 
 theorem token_beginString (rest : Bytes) : Dec.token (0x7f :: rest) = .ok .beginString rest := by
   rw [token_of_datatype (ty := .stringIndef) (by simp [datatype_cons, Dec.typeOf])]
-  simp [Dec.skipByte, Dec.bind_run]
+  simp [Dec.tokenArm, Dec.skipByte, Dec.bind_run]
 
 theorem token_beginArray (rest : Bytes) : Dec.token (0x9f :: rest) = .ok .beginArray rest := by
   rw [token_of_datatype (ty := .arrayIndef) (by simp [datatype_cons, Dec.typeOf])]
-  simp [Dec.skipByte, Dec.bind_run]
+  simp [Dec.tokenArm, Dec.skipByte, Dec.bind_run]
 
 theorem token_beginMap (rest : Bytes) : Dec.token (0xbf :: rest) = .ok .beginMap rest := by
   rw [token_of_datatype (ty := .mapIndef) (by simp [datatype_cons, Dec.typeOf])]
-  simp [Dec.skipByte, Dec.bind_run]
+  simp [Dec.tokenArm, Dec.skipByte, Dec.bind_run]
 
 theorem token_break (rest : Bytes) : Dec.token (0xff :: rest) = .ok .brk rest := by
   rw [token_of_datatype (ty := .break) (by simp [datatype_cons, Dec.typeOf])]
-  simp [Dec.skipByte, Dec.bind_run]
+  simp [Dec.tokenArm, Dec.skipByte, Dec.bind_run]
 
 theorem token_null (rest : Bytes) : Dec.token (0xf6 :: rest) = .ok .null rest := by
   rw [token_of_datatype (ty := .null) (by simp [datatype_cons, Dec.typeOf])]
-  simp [Dec.skipByte, Dec.bind_run]
+  simp [Dec.tokenArm, Dec.skipByte, Dec.bind_run]
 
 theorem token_undefined (rest : Bytes) : Dec.token (0xf7 :: rest) = .ok .undefined rest := by
   rw [token_of_datatype (ty := .undefined) (by simp [datatype_cons, Dec.typeOf])]
-  simp [Dec.skipByte, Dec.bind_run]
+  simp [Dec.tokenArm, Dec.skipByte, Dec.bind_run]
 
 theorem token_false (rest : Bytes) : Dec.token (0xf4 :: rest) = .ok (.bool false) rest := by
   rw [token_of_datatype (ty := .bool) (by simp [datatype_cons, Dec.typeOf])]
-  simp [Dec.bool, Dec.bind_run]
+  simp [Dec.tokenArm, Dec.bool, Dec.bind_run]
 
 theorem token_true (rest : Bytes) : Dec.token (0xf5 :: rest) = .ok (.bool true) rest := by
   rw [token_of_datatype (ty := .bool) (by simp [datatype_cons, Dec.typeOf])]
-  simp [Dec.bool, Dec.bind_run]
+  simp [Dec.tokenArm, Dec.bool, Dec.bind_run]
 
 /-! ### simple values and floats -/
 
@@ -241,18 +265,18 @@ theorem token_simple_small (n : Nat) (rest : Bytes) (h : n < 20) :
   have hd : Dec.datatype (u8 (0xe0 + n) :: rest) = .ok .simple (u8 (0xe0 + n) :: rest) := by
     rw [datatype_cons]; unfold Dec.typeOf
     simp only [u8_toNat_mod, e1]
-    simp
-    omega
+    simp (disch := omega) only [beq_iff_eq, Bool.and_eq_true, decide_eq_true_eq, Bool.or_eq_true, if_neg, if_pos]
+    rfl
   rw [token_of_datatype hd]
   have e2 : 224 + n ≤ 243 := by omega
-  simp [Dec.simple, Dec.bind_run, e1, e2]
+  simp [Dec.tokenArm, Dec.simple, Dec.bind_run, e1, e2]
 
 /-- a simple value after `f8` (any byte: the decoder does not reject 0..31 here). -/
 theorem token_simple_f8 (n : Nat) (rest : Bytes) (h : n < 256) :
     Dec.token (0xf8 :: u8 n :: rest) = .ok (.simple n) rest := by
   rw [token_of_datatype (ty := .simple) (by simp [datatype_cons, Dec.typeOf])]
   have e1 : n % 256 = n := by omega
-  simp [Dec.simple, Dec.bind_run, e1]
+  simp [Dec.tokenArm, Dec.simple, Dec.bind_run, e1]
 
 theorem token_simple (n : Nat) (rest : Bytes) (h : (WItem.simple n).Valid) :
     Dec.token (encW (.simple n) ++ rest) = .ok (simpleTok n) rest := by
@@ -278,18 +302,18 @@ theorem token_f16 (b : Nat) (rest : Bytes) (h : b < 65536) :
     Dec.token (0xf9 :: (be 2 b ++ rest)) = .ok (.f16 (f16ToF32 b)) rest := by
   rw [token_of_datatype (ty := .f16) (by simp [datatype_cons, Dec.typeOf])]
   have := fromBe_be 2 b (by simpa using h)
-  simp [Dec.f16, Dec.bind_run, Dec.readSlice_be, this]
+  simp [Dec.tokenArm, Dec.f16, Dec.bind_run, Dec.readSlice_be, this]
 
 theorem token_f32 (b : Nat) (rest : Bytes) (h : b < 4294967296) :
     Dec.token (0xfa :: (be 4 b ++ rest)) = .ok (.f32 b) rest := by
   rw [token_of_datatype (ty := .f32) (by simp [datatype_cons, Dec.typeOf])]
   have := fromBe_be 4 b (by simpa using h)
-  simp [Dec.f32, Dec.bind_run, Dec.readSlice_be, this]
+  simp [Dec.tokenArm, Dec.f32, Dec.bind_run, Dec.readSlice_be, this]
 
 theorem token_f64 (b : Nat) (rest : Bytes) (h : b < 18446744073709551616) :
     Dec.token (0xfb :: (be 8 b ++ rest)) = .ok (.f64 b) rest := by
   rw [token_of_datatype (ty := .f64) (by simp [datatype_cons, Dec.typeOf])]
   have := fromBe_be 8 b (by simpa using h)
-  simp [Dec.f64, Dec.bind_run, Dec.readSlice_be, this]
+  simp [Dec.tokenArm, Dec.f64, Dec.bind_run, Dec.readSlice_be, this]
 
 end Minicbor
